@@ -559,7 +559,7 @@ namespace c01
             observers();
             if (node_clauses())
                 walk_all();
-            vf::state(state_hash());
+            vf::state(N <= 4 ? state_hash() : shape_hash(0xCD2, N, L, model, L, (const uint8_t *)st));
         }
         void teardown(uint64_t v)
         {
